@@ -372,22 +372,25 @@ pub fn sub_str(
         return None;
     }
     let (lex, tag) = source;
+    // NB: positions are counted in characters, not in bytes
+    let len = lex.chars().count();
     let (s, e) = match length {
         Some(l) if l.is_nan() => return None,
-        None | Some(f64::INFINITY) => (
-            ((starting_loc.round() - 1.0) as usize).min(lex.len()),
-            lex.len(),
-        ),
+        None | Some(f64::INFINITY) => (((starting_loc.round() - 1.0) as usize).min(len), len),
         Some(l) => {
             let s_signed = starting_loc.round() as isize - 1;
-            let s = (s_signed.max(0) as usize).min(lex.len());
+            let s = (s_signed.max(0) as usize).min(len);
             let e = ((s_signed + l.round() as isize).max(0) as usize)
                 .max(s)
-                .min(lex.len());
+                .min(len);
             (s, e)
         }
     };
-    Some(EvalResult::from((Arc::from(&lex[s..e]), tag.cloned())))
+    let byte_of = |pos: usize| lex.char_indices().nth(pos).map_or(lex.len(), |(b, _)| b);
+    Some(EvalResult::from((
+        Arc::from(&lex[byte_of(s)..byte_of(e)]),
+        tag.cloned(),
+    )))
 }
 
 pub fn str_len(string: &Arc<str>) -> EvalResult {
